@@ -123,9 +123,7 @@ def slotStr (x : Slot Int) : String :=
 
 /-- `regs d0 k0 d1 k1 d2 k2 prog`: three objects, a history of special-member calls, then all three printed -/
 def regsLine (dks : List (List Int × Int)) (prog : List RegOp) : String :=
-  match dks.mapM fun dk => (mkGrid dk.1 dk.2).toOption with
-  | none => "diverge"
-  | some gs =>
+  exc (dks.mapM fun dk => mkGrid dk.1 dk.2) fun gs =>
     match regRun (gs.map fun g => ⟨g, false⟩) prog with
     | none => "bad-op"
     | some st => " ; ".intercalate (st.map slotStr)
